@@ -1149,7 +1149,7 @@ def edge_guards(fn, edge, target, result_local=None, _depth=0):
                 continue
             if not (fn.edge_dominates_plain(e2, target) or (_depth < 2 and edge_guards(fn, e2, target, None, _depth + 3))):
                 continue
-            dsites = [d for n_ in names for d in by_variant.get(n_, [])]
+            dsites = [d for n_ in names for d in by_variant.get(n_, [])] + list(by_variant.get("?", []))
             if dsites and all(behind(d) for d in dsites):
                 return True
     return False
